@@ -488,6 +488,8 @@ func main() {
 		}
 		if err := hx.LoadReplay(run.ReplayIn, &rp); err != nil {
 			run.CheckError("cannot load replay: " + err.Error())
+		} else if rp.Case.Schema == nil {
+			run.Tag("replay-file-of-another-unit") // e.g. a replay written by harness c02overlap
 		} else {
 			one(rp.Case)
 		}
@@ -500,7 +502,7 @@ func main() {
 		one(c)
 	}
 
-	n := run.N(600, 60000)
+	n := run.N(500, 12000)
 	kinds := gen.MutationKindNames()
 	for i := 0; i < n && !run.TooManyViolations(); i++ {
 		r := hx.Fork(run.Seed, i)
